@@ -75,6 +75,14 @@ func VxC20_Sample() {
 	for i := range a {
 		vx.Assert(vxSameResult(a[i], b[i]), "repeated Sample queries return bit-identical results after unrelated calls")
 	}
+	// the caller refills the same backing array: later queries must see the new contents, exactly
+	// as a fresh Sample holding the same values does (no result may depend on earlier calls)
+	if ws == nil {
+		ys := vx.Floats("y", n)
+		copy(xs, ys)
+		fresh := Sample{Xs: append([]float64(nil), ys...)}
+		vx.Assert(vxSameResult(s.Quantile(q), fresh.Quantile(q)) && vxSameResult(s.IQR(), fresh.IQR()), "a query depends only on the current contents of the sample, not on earlier calls")
+	}
 }
 
 // VxC20_Tests: MannWhitneyUTest, UDist, QuantileCI/SampleCI and KDE leave their inputs alone and are deterministic.
